@@ -437,7 +437,7 @@ Definition expect_Channel_exit : list string :=
   ; "}"
   ; "call c.RUnlock"
   ; "if deleted {"
-  ; "call c.Empty"
+  ; "call c.empty"
   ; "call c.backend.Delete"
   ; "return"
   ; "}"
@@ -445,8 +445,15 @@ Definition expect_Channel_exit : list string :=
   ; "call c.backend.Close"
   ; "return" ].
 
-(* Empty: clears in-flight, deferred, client counters, memory queue and backend *)
+(* Empty: exclusive exit lock (waits for requeues in progress), then empty() *)
 Definition expect_Channel_Empty : list string :=
+  [ "call c.exitMutex.Lock"
+  ; "defer c.exitMutex.Unlock"
+  ; "call c.empty"
+  ; "return" ].
+
+(* empty: clears in-flight and deferred, drains the queues and the backend, THEN resets the consumers (F17) *)
+Definition expect_Channel_empty : list string :=
   [ "call c.Lock"
   ; "defer c.Unlock"
   ; "call c.initPQ"
@@ -996,6 +1003,7 @@ Definition src_facts_C05 : Prop :=
 
 Definition src_facts_C08 : Prop :=
   shape_Channel_Empty = expect_Channel_Empty
+  /\ shape_Channel_empty = expect_Channel_empty
   /\ shape_Channel_exit = expect_Channel_exit
   /\ shape_Channel_AddClient = expect_Channel_AddClient
   /\ shape_Channel_RemoveClient = expect_Channel_RemoveClient
